@@ -14,6 +14,7 @@
 
 #include <cstdint>
 #include <map>
+#include <set>
 #include <string>
 #include <tuple>
 #include <unordered_map>
@@ -205,6 +206,9 @@ namespace pm
       // the same before the node's own action is taken into account ("did the rule itself match")
       std::map< std::tuple< int, int, int, bool >, outcome > memo_pre;
       std::uint64_t caught = 0;  // exceptions converted by try_catch rules
+      // (node,pos,end) evaluated with actions enabled during the top-level run (not by later on-demand queries)
+      std::set< std::tuple< int, int, int > > visited_act;
+      bool top_running = false;
 
       machine( const grammar& gr, const std::string& input )
          : g( gr ), in( input )
@@ -301,6 +305,9 @@ namespace pm
          const node& n = g.nodes[ std::size_t( ni ) ];
          if( r.k != FUEL ) {
             memo_pre[ std::make_tuple( ni, pos, c.end, c.act ) ] = r;
+         }
+         if( top_running && c.act ) {
+            visited_act.insert( std::make_tuple( ni, pos, c.end ) );
          }
          if( r.k == OK && c.act && !ignore_actions && n.action != NO_ACTION ) {
             events.push_back( { ni, pos, r.end } );
@@ -709,7 +716,11 @@ namespace pm
       {
          ctx c{ int( in.size() ), actions, 0, -1 };
          events.clear();
-         return eval( g.top, pos, c );
+         visited_act.clear();
+         top_running = true;
+         const outcome r = eval( g.top, pos, c );
+         top_running = false;
+         return r;
       }
 
       outcome pre_verdict( int ni, int pos, int end, bool act )
